@@ -1,6 +1,7 @@
 import CardVerif.Model.Pot
 import CardVerif.Spec.SidePot
 import CardVerif.Proofs.Rake
+import CardVerif.Proofs.Float53
 /-!
 # C14 — rake is bounded, order-preserving, and never breaks settlement
 
@@ -8,7 +9,9 @@ Statements about the model `Pot.rakePerPlayer` (transcription of `Pot.get_rake_p
 `fl` is the rounding applied after each float operation.  Two groups:
 
 * for **every** rounding `fl` that is monotone and fixes integers (`FlSpec`) – in particular for exact
-  arithmetic and for any faithful model of IEEE doubles on chip counts below 2^53;
+  arithmetic – and, more generally, for every rounding that is monotone and fixes the integers up to a bound `B`
+  that the contributions do not exceed (`FlSpecB`) – in particular for IEEE doubles (`Float53.rnd`, `B = 2^53`:
+  `flSpecB_f53`, `rake_le_contribution_f53`, `order_preserved_f53`);
 * for **exact** arithmetic (`fl = id`) the remaining inequalities (non-negativity, monotonicity, caps).
 -/
 namespace CardVerif.C14
@@ -49,6 +52,50 @@ theorem order_preserved {fl : Rat → Rat} (hfl : FlSpec fl) (cfg : RakeCfg) (ba
     getI bal p - getI (rakePerPlayer fl cfg bal rp) p ≤ getI bal q - getI (rakePerPlayer fl cfg bal rp) q := by
   have := order_kept hfl.mono hfl.fixInt cfg hf0 hf1 bal hbal rp p q hp hq h
   omega
+
+/-! ### rounding that is exact only up to a bound (IEEE doubles) -/
+
+/-- rounding that is monotone and exact on integers up to `B` in absolute value -/
+structure FlSpecB (B : Int) (fl : Rat → Rat) : Prop where
+  mono : ∀ a b : Rat, a ≤ b → fl a ≤ fl b
+  fixInt : ∀ z : Int, |z| ≤ B → fl (z : Rat) = (z : Rat)
+
+theorem FlSpec.toB {fl : Rat → Rat} (h : FlSpec fl) (B : Int) : FlSpecB B fl :=
+  ⟨h.mono, fun z _ => h.fixInt z⟩
+
+theorem FlSpecB.anti {fl : Rat → Rat} {B B' : Int} (h : FlSpecB B fl) (hB : B' ≤ B) : FlSpecB B' fl :=
+  ⟨h.mono, fun z hz => h.fixInt z (Int.le_trans hz hB)⟩
+
+/-- nobody pays more rake than he contributed (contributions at most `B`) -/
+theorem rake_le_contribution_B {fl : Rat → Rat} {B : Int} (hfl : FlSpecB B fl) (cfg : RakeCfg) (bal : List Int)
+    (rp : Bool) (hf0 : 0 ≤ cfg.f) (hf1 : cfg.f ≤ 1) (hbal : ∀ b ∈ bal, 0 ≤ b) (hB : ∀ b ∈ bal, b ≤ B) (p : Nat)
+    (hp : p < bal.length) :
+    getI (rakePerPlayer fl cfg bal rp) p ≤ getI bal p := by
+  exact le_contribution_B hfl.mono hfl.fixInt cfg hf0 hf1 bal hbal hB rp p hp
+
+/-- after rake, a player who put in more never has less at stake than one who put in less (contributions at most `B`) -/
+theorem order_preserved_B {fl : Rat → Rat} {B : Int} (hfl : FlSpecB B fl) (cfg : RakeCfg) (bal : List Int) (rp : Bool)
+    (hf0 : 0 ≤ cfg.f) (hf1 : cfg.f ≤ 1) (hbal : ∀ b ∈ bal, 0 ≤ b) (hB : ∀ b ∈ bal, b ≤ B) (p q : Nat)
+    (hp : p < bal.length) (hq : q < bal.length) (h : getI bal p ≤ getI bal q) :
+    getI bal p - getI (rakePerPlayer fl cfg bal rp) p ≤ getI bal q - getI (rakePerPlayer fl cfg bal rp) q := by
+  have := order_kept_B hfl.mono hfl.fixInt cfg hf0 hf1 bal hbal hB rp p q hp hq h
+  omega
+
+/-- **IEEE-754 binary64 rounding** (53-bit significand, ties to even) is monotone and exact on `|z| ≤ 2^53` -/
+theorem flSpecB_f53 : FlSpecB (2 ^ 53) Float53.rnd := ⟨Float53.rnd_mono, Float53.rnd_int⟩
+
+theorem rake_le_contribution_f53 (cfg : RakeCfg) (bal : List Int) (rp : Bool)
+    (hf0 : 0 ≤ cfg.f) (hf1 : cfg.f ≤ 1) (hbal : ∀ b ∈ bal, 0 ≤ b) (hB : ∀ b ∈ bal, b ≤ 2 ^ 53) (p : Nat)
+    (hp : p < bal.length) :
+    getI (rakePerPlayer Float53.rnd cfg bal rp) p ≤ getI bal p :=
+  rake_le_contribution_B flSpecB_f53 cfg bal rp hf0 hf1 hbal hB p hp
+
+theorem order_preserved_f53 (cfg : RakeCfg) (bal : List Int) (rp : Bool)
+    (hf0 : 0 ≤ cfg.f) (hf1 : cfg.f ≤ 1) (hbal : ∀ b ∈ bal, 0 ≤ b) (hB : ∀ b ∈ bal, b ≤ 2 ^ 53) (p q : Nat)
+    (hp : p < bal.length) (hq : q < bal.length) (h : getI bal p ≤ getI bal q) :
+    getI bal p - getI (rakePerPlayer Float53.rnd cfg bal rp) p
+      ≤ getI bal q - getI (rakePerPlayer Float53.rnd cfg bal rp) q :=
+  order_preserved_B flSpecB_f53 cfg bal rp hf0 hf1 hbal hB p q hp hq h
 
 /-! ### exact arithmetic -/
 
